@@ -56,22 +56,40 @@ func LogVia(sev int, msg string) {
 }
 
 // Tracer adds a context tracer, logs the given lines through it and submits it.
-func Tracer(sevs []int, texts []string) {
+// fs[i] selects the Printf-style method for line i.
+func Tracer(sevs []int, fs []bool, texts []string) {
 	_, tr := log.AddTracer(context.Background())
-	handle(tr, sevs, texts)
+	handle(tr, sevs, fs, texts)
 }
 
 // Untraced runs the same handler for a context that has no tracer:
 // log.Tracer returns nil and the nil-safe ContextTracer methods log plainly —
 // from the SAME call sites as the collected lines of Tracer.
-func Untraced(sevs []int, texts []string) {
-	handle(log.Tracer(context.Background()), sevs, texts)
+func Untraced(sevs []int, fs []bool, texts []string) {
+	handle(log.Tracer(context.Background()), sevs, fs, texts)
 }
 
 // handle is the "request handler": it logs through the tracer of its context
-// if there is one and plainly otherwise. One call site per severity.
-func handle(tr *log.ContextTracer, sevs []int, texts []string) {
+// if there is one and plainly otherwise. One call site per (severity, style).
+func handle(tr *log.ContextTracer, sevs []int, fs []bool, texts []string) {
 	for i, s := range sevs {
+		if fs[i] {
+			switch s {
+			case 1:
+				tr.Tracef("%s", texts[i])
+			case 2:
+				tr.Debugf("%s", texts[i])
+			case 3:
+				tr.Infof("%s", texts[i])
+			case 4:
+				tr.Warningf("%s", texts[i])
+			case 5:
+				tr.Errorf("%s", texts[i])
+			case 6:
+				tr.Criticalf("%s", texts[i])
+			}
+			continue
+		}
 		switch s {
 		case 1:
 			tr.Trace(texts[i])
